@@ -59,6 +59,9 @@ pub struct VirtQueue<H: Hal, const SIZE: usize> {
     free_head: u16,
     /// Our trusted copy of `desc` that the device can't access.
     desc_shadow: [Descriptor; SIZE],
+    /// Whether each descriptor is the head of a chain which has been made available to the device
+    /// and not yet popped.
+    outstanding: [bool; SIZE],
     /// Our trusted copy of `avail.idx`.
     avail_idx: u16,
     last_used_idx: u16,
@@ -147,6 +150,7 @@ impl<H: Hal, const SIZE: usize> VirtQueue<H, SIZE> {
             num_used: 0,
             free_head: 0,
             desc_shadow,
+            outstanding: [false; SIZE],
             avail_idx: 0,
             last_used_idx: 0,
             event_idx,
@@ -220,6 +224,7 @@ impl<H: Hal, const SIZE: usize> VirtQueue<H, SIZE> {
         };
         #[cfg(not(feature = "alloc"))]
         let head = self.add_direct(inputs, outputs);
+        self.outstanding[usize::from(head)] = true;
 
         let avail_slot = self.avail_idx & (SIZE as u16 - 1);
         // SAFETY: `self.avail` is properly aligned, dereferenceable and initialised.
@@ -639,12 +644,13 @@ impl<H: Hal, const SIZE: usize> VirtQueue<H, SIZE> {
             len = (*self.used.as_ptr()).ring[last_used_slot as usize].len;
         }
 
-        // The device must only report chains which are outstanding. A descriptor with no buffer
-        // set is free, so recycling it again would corrupt the free list.
+        // The device must only report chains which are outstanding. A descriptor which is free or
+        // in the middle of some other chain must not be recycled as if it were the head of one.
         let outstanding = self
-            .desc_shadow
+            .outstanding
             .get(usize::from(index))
-            .is_some_and(|desc| desc.len != 0);
+            .copied()
+            .unwrap_or(false);
 
         if index != token || !outstanding {
             // The device used a different descriptor chain to the one we were expecting.
@@ -656,6 +662,7 @@ impl<H: Hal, const SIZE: usize> VirtQueue<H, SIZE> {
             return Err(Error::WrongToken);
         }
 
+        self.outstanding[usize::from(index)] = false;
         // SAFETY: The caller ensures the buffers are valid and match the descriptor.
         unsafe {
             self.recycle_descriptors(index, inputs, outputs);
